@@ -213,3 +213,64 @@ func reachesNode(fg *fcfg, from token.Pos, pred func(n ast.Node) bool) bool {
 	}
 	return walk(b0, i0+1)
 }
+
+// succeedsOnPath: the return hands back a nil error: `return .., nil`; `return err` / a bare return
+// with a named error result where the closest test of that error on the path says it is nil (for a
+// bare return: or where there is no such test and no error was raised just before).
+func (c *Ctx) succeedsOnPath(info *types.Info, body *ast.BlockStmt, ret *ast.ReturnStmt) bool {
+	if ret == nil {
+		return true
+	}
+	var o types.Object
+	def := false
+	if len(ret.Results) == 0 {
+		// the named error result of the enclosing function
+		def = true
+		if errorJustRaised(info, body, ret) {
+			return false
+		}
+	} else {
+		last := unparen(ret.Results[len(ret.Results)-1])
+		if id, ok := last.(*ast.Ident); ok && id.Name == "nil" {
+			return true
+		}
+		if tv, ok := info.Types[last]; !ok || !isErrorType(tv.Type) {
+			return true
+		}
+		o = identObj(info, last)
+		if o == nil {
+			return false
+		}
+	}
+	conds, ok := c.pathConds(info, body, ret, false)
+	if !ok {
+		return def
+	}
+	verdict := def
+	for _, cd := range flattenConds(conds) {
+		be, isBin := unparen0(cd.Expr).(*ast.BinaryExpr)
+		if !isBin || (be.Op != token.EQL && be.Op != token.NEQ) {
+			continue
+		}
+		isNil := func(x ast.Expr) bool { id, isId := unparen(x).(*ast.Ident); return isId && id.Name == "nil" }
+		var ev ast.Expr
+		switch {
+		case isNil(be.Y):
+			ev = be.X
+		case isNil(be.X):
+			ev = be.Y
+		default:
+			continue
+		}
+		if o != nil && identObj(info, ev) != o {
+			continue
+		}
+		if o == nil && !isErrorType(info.TypeOf(ev)) {
+			continue
+		}
+		// err == nil taken, or err != nil not taken; the variable is usually re-assigned between
+		// tests, so the test closest to the return decides
+		verdict = (be.Op == token.EQL) != cd.Neg
+	}
+	return verdict
+}
